@@ -2,6 +2,7 @@ package props
 
 import (
 	"bytes"
+	"errors"
 	"fmt"
 	"strings"
 	"time"
@@ -35,6 +36,15 @@ var strCases = func() []strCase {
 		{"nonchar-ffff", "￿", true},
 		{"nonchar-fdd0", "﷐x", true},
 		{"max-rune", "\U0010ffff", true},
+		{"replacement-char", "\ufffd", true}, // a literal U+FFFD is well-formed
+		{"replacement-inside", "a\ufffdb", true},
+		{"bom", "\ufeff/x", true},
+		{"two-byte-min", "\u0080", true},
+		{"two-byte-max", "\u07ff", true},
+		{"three-byte-min", "\u0800", true},
+		{"before-surrogates", "\ud7ff", true},
+		{"after-surrogates", "\ue000", true},
+		{"four-byte-min", "\U00010000", true},
 		{"empty", "", true},
 		{"len65536", rep("w", 65536), false},
 		{"nul", "\x00", false},
@@ -52,6 +62,136 @@ var strCases = func() []strCase {
 		{"ff", "a\xffb", false},
 		{"five-byte", "\xf8\x88\x80\x80\x80", false},
 	}
+}()
+
+// c09SlotProbe: denied subscribe and unsubscribe requests of every kind,
+// including the ones refused for their total size, must not use up a request
+// slot: afterwards as many requests fit at once as on a fresh client.
+func c09SlotProbe(c *run.Ctx) {
+	x := newC09Client(c)
+	if x == nil {
+		return
+	}
+	defer x.close()
+	long := strings.Repeat("f", 65535)
+	oversize := make([]string, 4097) // 4097 x (2+65535) bytes exceed the 268,435,455 byte packet limit
+	for i := range oversize {
+		oversize[i] = long
+	}
+	type denial struct {
+		name string
+		call func() error
+	}
+	denials := []denial{
+		{"Unsubscribe(total size over the packet limit)", func() error { return x.cl.Unsubscribe(nil, oversize...) }},
+		{"Subscribe(total size over the packet limit)", func() error { return x.cl.Subscribe(nil, oversize...) }},
+		{"Subscribe()", func() error { return x.cl.Subscribe(nil) }},
+		{"Unsubscribe()", func() error { return x.cl.Unsubscribe(nil) }},
+		{"Subscribe(valid, NUL inside)", func() error { return x.cl.Subscribe(nil, "ok", "a\x00b") }},
+		{"Unsubscribe(valid, empty)", func() error { return x.cl.Unsubscribe(nil, "ok", "") }},
+		{"SubscribeLimitAtMostOnce(65536 bytes)", func() error { return x.cl.SubscribeLimitAtMostOnce(nil, long+"x") }},
+		{"SubscribeLimitAtLeastOnce(surrogate)", func() error { return x.cl.SubscribeLimitAtLeastOnce(nil, "\xed\xa0\x80") }},
+	}
+	m := x.mark()
+	for _, d := range denials {
+		err := d.call()
+		if err == nil || !mqtt.IsDeny(err) {
+			x.violate("invalid-argument-not-denied", fmt.Sprintf("%s: got %v, want an IsDeny error", d.name, err), nil)
+			return
+		}
+	}
+	if pk, rest, ops, _ := x.since(m); len(pk) != 0 || len(rest) != 0 || len(ops) != 0 {
+		x.violate("denied-request-left-trace", fmt.Sprintf("denied subscribe/unsubscribe requests: %d packets, %d bytes, %d store operations", len(pk), len(rest), len(ops)), nil)
+		return
+	}
+	// a reference: how many requests fit at once on a client that never saw a denial
+	fit := func(y *c09Client) (accepted, refused int, other error) {
+		y.w.Mu.Lock()
+		y.w.Broker.AckPolicy = func(b *sim.Broker, cn *sim.Conn, p *wire.Packet, reply []byte) string { return "hold" }
+		y.w.Mu.Unlock()
+		const n = 520
+		errs := make(chan error, n)
+		quit := make(chan struct{})
+		for i := 0; i < n; i++ {
+			f := fmt.Sprintf("slot/%d", i)
+			go func(i int) {
+				if i%2 == 0 {
+					errs <- y.cl.Subscribe(quit, f)
+				} else {
+					errs <- y.cl.Unsubscribe(quit, f)
+				}
+			}(i)
+		}
+		// each request either gets refused at once or sits waiting for its answer
+		written := func() int {
+			k := 0
+			for _, e := range y.w.Trace {
+				if e.Kind == "broker.recv" && (strings.HasPrefix(e.Note, "SUBSCRIBE") || strings.HasPrefix(e.Note, "UNSUBSCRIBE")) {
+					k++
+				}
+			}
+			return k
+		}
+		var early []error
+		y.w.WaitUntil(2*sim.StepTimeout, func() bool {
+			for {
+				select {
+				case e := <-errs:
+					early = append(early, e)
+					continue
+				default:
+				}
+				break
+			}
+			return written()+len(early) >= n
+		})
+		y.w.Mu.Lock()
+		accepted = written()
+		y.w.Mu.Unlock()
+		for _, e := range early {
+			if errors.Is(e, mqtt.ErrMax) {
+				refused++
+			} else if e != nil {
+				other = e
+			}
+		}
+		close(quit)
+		for i := len(early); i < n; i++ {
+			select {
+			case <-errs:
+			case <-time.After(sim.StepTimeout):
+			}
+		}
+		return
+	}
+	ref := newC09Client(c)
+	if ref == nil {
+		return
+	}
+	refAccepted, _, refErr := fit(ref)
+	ref.close()
+	accepted, refused, err := fit(x)
+	if refErr != nil || err != nil {
+		c.Inconclusive(fmt.Sprintf("slot probe met an unexpected error: %v / %v", refErr, err))
+		return
+	}
+	if accepted < refAccepted {
+		x.violate("denied-request-consumed-slot", fmt.Sprintf("after %d denied subscribe/unsubscribe requests only %d requests fit at once (%d refused with ErrMax); a fresh client takes %d", len(denials), accepted, refused, refAccepted), nil)
+	}
+	c.Count("slot_probe_requests_in_flight", accepted)
+	c.Count("slot_probe_denials", len(denials))
+	c.Trigger(fmt.Sprintf("slot-probe|fresh=%d|after-denials=%d", refAccepted, accepted))
+	c.Sample(map[string]any{"scenario": "slot probe after denials", "denials": len(denials), "fit_on_fresh_client": refAccepted, "fit_after_denials": accepted})
+}
+
+// nValidStrCases counts the leading valid, non-empty classes.
+var nValidStrCases = func() int {
+	for i, sc := range strCases {
+		if !sc.Valid || sc.S == "" {
+			return i
+		}
+	}
+	return len(strCases)
 }()
 
 // c09Client is a connected client with capacity 1 per level for probing.
@@ -490,9 +630,13 @@ func init() {
 			return 400
 		},
 		ChunkSize:   10,
-		Rule:        "argument generator = boundary lists x PRNG: 29 string classes (lengths 0,1,127,128,65535,65536; surrogates, overlongs of 2/3/4 bytes, truncated sequences, > U+10FFFF, stray continuation, 0xFF, five-byte form, U+0000 alone and embedded; valid extremes: noncharacters, controls, U+10FFFF) for topics, filters, client identifier, user name, will topic; payload sizes that put the remaining length on each side of 127/128, 16383/16384, 2097151/2097152 and (denial side) 268435455; 1-4 filters with each level limit; Config: will on/off x level x retain x message size, credentials five ways, keep-alive 0/1/60/65535, clean session. Every case issues ~40 calls on a connected client with a maximum of ONE in-flight transfer per level. Oracle: validity by a reference predicate written from the specification; valid => accepted and the packet found on the wire decodes strictly (independent codec) to the requested fields and equals the reference encoding; invalid => IsDeny (or constructor error), no byte written, no Persistence operation, and a following valid publish still fits the single slot. Non-trivial: every call; distinct by (method, argument class, size class).",
+		Rule:        "argument generator = boundary lists x PRNG: 38 string classes (lengths 0,1,127,128,65535,65536; surrogates, overlongs of 2/3/4 bytes, truncated sequences, > U+10FFFF, stray continuation, 0xFF, five-byte form, U+0000 alone and embedded; valid extremes: noncharacters, controls, U+10FFFF, a literal U+FFFD, U+FEFF, the first and last code point of each encoded length and both neighbours of the surrogate range) for topics, filters, client identifier, user name, will topic; payload sizes that put the remaining length on each side of 127/128, 16383/16384, 2097151/2097152 and (denial side) 268435455; 1-4 filters with each level limit; Config: will on/off x level x retain x message size, credentials five ways, keep-alive 0/1/60/65535, clean session. Every case issues ~40 calls on a connected client with a maximum of ONE in-flight transfer per level. Oracle: validity by a reference predicate written from the specification; valid => accepted and the packet found on the wire decodes strictly (independent codec) to the requested fields and equals the reference encoding; invalid => IsDeny (or constructor error), no byte written, no Persistence operation, and a following valid publish still fits the single slot; one case denies subscribe/unsubscribe requests of every kind (empty, ill-formed, 65,536 bytes, total size beyond the packet limit with 4,097 filters) and then counts how many requests fit at once, against a fresh client. Non-trivial: every call; distinct by (method, argument class, size class).",
 		Assumptions: []string{"the 268435455-byte packet is exercised on the denial side in both tiers; accepting a packet of exactly that size is exercised once per run (Publish at level 0)", "gray zone not asserted: an invalid will topic while no will message is set"},
 		Run: func(c *run.Ctx) {
+			if c.Case == 2 || c.Tier == "thorough" && c.Case%50 == 2 {
+				c09SlotProbe(c)
+				return
+			}
 			if c.Case%4 == 3 {
 				// Config cases
 				for i := 0; i < 25; i++ {
@@ -583,7 +727,7 @@ func init() {
 				for j := 0; j < n; j++ {
 					sc := strCases[c.Rng.Intn(len(strCases))]
 					if c.Rng.Intn(3) != 0 {
-						sc = strCases[c.Rng.Intn(13)] // valid ones mostly
+						sc = strCases[c.Rng.Intn(nValidStrCases)] // valid ones mostly
 					}
 					if sc.Valid && sc.S != "" {
 						sc.S += fmt.Sprintf("/%d", x.seq)
